@@ -3,12 +3,12 @@ import itertools
 
 import numpy as np
 
-from .common import coqbool, zl, zlist2
+from .common import coqbool, zl, zlist, zlist2
 
 PROP = 'C11'
 
 HEADER = """From Coq Require Import ZArith List Bool.
-From PB Require Import lib.SumZ lib.PySlice lib.Arr lib.CaseUtil C11.DtD C11.Table gen.GenBands C11.Banded.
+From PB Require Import lib.SumZ lib.PySlice lib.Arr lib.CaseUtil C11.DtD C11.Table gen.GenBands C11.Banded C11.Uses.
 Import ListNotations.
 Open Scope Z_scope.
 """
@@ -86,23 +86,63 @@ def cfg_kwargs(c):
 def observe(s):
     return (int(s.diff_order), bool(s.lower), bool(s.reversed), bool(s.using_pentapy),
             int(s.num_bands), int(s.main_diagonal_index),
-            as_int_rows(s.original_diagonals), as_int_rows(s.penalty))
+            as_int_rows(s.original_diagonals), as_int_rows(s.penalty),
+            as_int_rows(s.main_diagonal)[0],
+            bool(np.shares_memory(s.penalty, s.original_diagonals)))
 
 
-def impl_history(hp, N, c0, ops):
+def is_cfg(op):
+    return isinstance(op, (tuple, list)) and len(op) == 6 and not isinstance(op[0], str)
+
+
+def is_use(op):
+    return isinstance(op, (tuple, list)) and isinstance(op[0], str)
+
+
+def apply_op(s, op):
+    """One operation of the state machine on the implementation.  Uses are exactly the ways the
+    library writes self.penalty: add_diagonal (in place), add_penalty (re-bind + _update_bands),
+    an in-place overwrite of the returned penalty array (what solve(..., overwrite_ab=True) lets
+    LAPACK do), and re-binding the attribute (mpspline)."""
+    if op == 'rev':
+        try:
+            s.reverse_penalty()
+        except ValueError:
+            pass
+    elif is_cfg(op):
+        s.reset_diagonals(**cfg_kwargs(op))
+    elif op[0] == 'diag':
+        try:
+            s.add_diagonal(np.array(op[1], dtype=float))
+        except ValueError:
+            pass
+    elif op[0] == 'pen':
+        try:
+            s.add_penalty(np.array(op[1], dtype=float))
+        except ValueError:
+            pass
+    elif op[0] == 'clob':
+        s.penalty[...] = np.array(op[1], dtype=float)
+    elif op[0] == 'set':
+        s.penalty = np.array(op[1], dtype=float)
+    else:
+        raise AssertionError(op)
+
+
+def impl_history(hp, N, c0, ops, watch=None):
     bu = _imp()
     old = bu._HAS_PENTAPY
     bu._HAS_PENTAPY = hp
     try:
         s = bu.PenalizedSystem(N, **cfg_kwargs(c0))
-        for op in ops:
-            if op == 'rev':
-                try:
-                    s.reverse_penalty()
-                except ValueError:
-                    pass
-            else:
-                s.reset_diagonals(**cfg_kwargs(op))
+        for k, op in enumerate(ops):
+            if watch is not None and is_use(op):
+                before = s.original_diagonals.copy()
+            apply_op(s, op)
+            if watch is not None:
+                if is_use(op) and not np.array_equal(before, s.original_diagonals):
+                    watch.append(('use-changed-original_diagonals', k))
+                    break
         return observe(s)
     finally:
         bu._HAS_PENTAPY = old
@@ -112,8 +152,10 @@ def impl_fresh(hp, N, c):
     return impl_history(hp, N, c, [])
 
 
-def apply_revs_fresh(hp, N, c, nrev):
-    return impl_history(hp, N, c, ['rev'] * nrev)
+def split_history(c0, ops):
+    """(final settings, operations after the last reset)."""
+    idx = max((i for i, o in enumerate(ops) if is_cfg(o)), default=-1)
+    return (ops[idx] if idx >= 0 else c0), list(ops[idx + 1:])
 
 
 # ---------------------------------------------------------------- Coq literals
@@ -125,54 +167,128 @@ def coq_cfg(c):
 
 
 def coq_obs(o):
-    d, lo, rv, pt, nb, mi, orig, pen = o
+    d, lo, rv, pt, nb, mi, orig, pen, maind, alias = o
     return (f'({zl(d)}, {coqbool(lo)}, {coqbool(rv)}, {coqbool(pt)}, {zl(nb)}, {zl(mi)}, '
-            f'{zlist2(orig)}, {zlist2(pen)})')
+            f'{zlist2(orig)}, {zlist2(pen)}, {zlist(maind)}, {coqbool(alias)})')
+
+
+def coq_op(o):
+    if o == 'rev':
+        return 'UReverse'
+    if is_cfg(o):
+        return f'UReset {coq_cfg(o)}'
+    kind, v = o
+    if kind == 'diag':
+        return f'AddDiag {zlist(v)}'
+    return {'pen': 'AddPen', 'clob': 'Clobber', 'set': 'SetPen'}[kind] + ' ' + zlist2(v)
 
 
 def rand_cfg(rng, N, dmax=6):
     d = rng.choice([0, 1, 1, 2, 2, 2, 3, 3, 4, 5, 6])
     d = min(d, dmax, N - 1)
-    return (rng.choice([1, 2, 3, 4, 8]), d, rng.random() < 0.5, rng.choice([None, True, False]),
-            rng.random() < 0.5, rng.choice([-1, 0, 0, 1, 2, 3]))
+    return (rng.choice([1, 1, 2, 3, 4, 8]), d, rng.random() < 0.5, rng.choice([None, True, False]),
+            rng.random() < 0.5, rng.choice([-3, -1, 0, 0, 1, 2, 3]))
 
 
-def gen_history(rng, Nmax):
+def lay(hp, c):
+    """(diff_order, lower, reversed) selected by settings c -- independent of the implementation."""
+    penta = c[4] and hp and c[1] == 2
+    lower = c[2] and not penta
+    rev = c[3] if c[3] is not None else penta
+    return (c[1], lower, rev)
+
+
+def pen_rows(hp, c):
+    d, lower, _ = lay(hp, c)
+    p = max(c[5], 0)
+    return (d + 1 + p) if lower else (2 * d + 1 + 2 * p)
+
+
+def rand_rows(rng, R, C):
+    return [[rng.randint(-9, 9) for _ in range(C)] for _ in range(R)]
+
+
+def rand_use(rng, N, rows, lower):
+    """A use of the system given the current penalty shape (rows, N); returns (op, new rows)."""
+    u = rng.random()
+    if u < 0.45:
+        v = rng.random()
+        L = N if v < 0.8 else (1 if v < 0.93 else N + 1)     # N+1: NumPy raises, state unchanged
+        return ('diag', [rng.randint(-9, 9) for _ in range(L)]), rows
+    if u < 0.7:
+        v = rng.random()
+        if v < 0.4:
+            R = rows
+        elif v < 0.85:
+            R = max(1, rows + rng.choice([-4, -2, -1, 1, 2, 4]))
+        else:
+            R = rows
+        C = N if v < 0.93 else N + 1                          # column mismatch: ValueError
+        new = rows
+        if C == N and (lower or (R - rows) % 2 == 0):
+            new = max(R, rows)
+        return ('pen', rand_rows(rng, R, C)), new
+    if u < 0.9:
+        return ('clob', rand_rows(rng, rows, N)), rows
+    return ('set', rand_rows(rng, rows, N)), rows
+
+
+def gen_history(rng, Nmax, uses=True):
     N = rng.choice([2, 3, 4, 5, 6, 7, 8, 9, 10, 12, 15]) if rng.random() < 0.8 else rng.randint(2, Nmax)
     hp = rng.random() < 0.6
     c0 = rand_cfg(rng, N)
     ops = []
     same_d = rng.random() < 0.7   # stay on one order most of the time so conversions are used
+    cur = c0
+    rows = pen_rows(hp, c0)
+    p_use = rng.choice([0.0, 0.3, 0.5]) if uses else 0.0
     for _ in range(rng.randint(1, 10)):
-        if rng.random() < 0.2:
+        u = rng.random()
+        if u < p_use:
+            op, rows = rand_use(rng, N, rows, lay(hp, cur)[1])
+            ops.append(op)
+        elif u < p_use + 0.15:
             ops.append('rev')
         else:
             c = rand_cfg(rng, N)
             if same_d:
                 c = (c[0], c0[1]) + c[2:]
+            if rng.random() < 0.35:
+                # the corner where a missing copy matters: lam exactly 1 and no padding rows
+                c = (1,) + c[1:5] + (rng.choice([-2, 0, 0]),)
             ops.append(c)
+            cur = c
+            rows = pen_rows(hp, c)
     return hp, N, c0, ops
 
 
 def layout_changes(hp, c0, ops):
     """number of times the (lower, reversed) layout changes along the history (non-triviality)."""
-    def lay(c):
-        penta = c[4] and hp and c[1] == 2
-        lower = c[2] and not penta
-        rev = c[3] if c[3] is not None else penta
-        return (c[1], lower, rev)
-    cur = lay(c0)
+    cur = lay(hp, c0)
     n = 0
     for op in ops:
         if op == 'rev':
             if not cur[1]:
                 cur = (cur[0], cur[1], not cur[2])
                 n += 1
-        else:
-            new = lay(op)
+        elif is_cfg(op):
+            new = lay(hp, op)
             if new != cur and new[0] == cur[0]:
                 n += 1
             cur = new
+    return n
+
+
+def use_then_reset(ops):
+    """number of resets that come after at least one use since the previous reset (non-triviality)."""
+    n = 0
+    used = False
+    for op in ops:
+        if is_use(op):
+            used = True
+        elif is_cfg(op):
+            n += used
+            used = False
     return n
 
 
@@ -223,56 +339,158 @@ def search(ctx, budget):
                 if not np.array_equal(P, ref.T @ ref):
                     ctx.fail('diff_penalty_matrix:value', f'diff_penalty_matrix({N},{d}) != D\'D',
                              {'kind': 'penmat', 'N': N, 'd': d})
-    # 3. histories vs fresh
+    # 3. histories (reconfigurations AND uses) vs fresh
     nh = 400 * budget
     for k in range(nh):
         hp, N, c0, ops = gen_history(ctx.rng, 40)
-        final = [o for o in ops if o != 'rev']
-        last = final[-1] if final else c0
-        idx = max(i for i, o in enumerate(ops) if o != 'rev') if final else -1
-        nrev = sum(1 for o in ops[idx + 1:] if o == 'rev')
-        try:
-            got = impl_history(hp, N, c0, ops)
-            want = apply_revs_fresh(hp, N, last, nrev)
-        except Exception as exc:  # noqa
-            ctx.fail('history:raises', f'reconfiguration history raised {type(exc).__name__}: {exc}',
-                     {'kind': 'history', 'hp': hp, 'N': N, 'c0': c0, 'ops': ops})
-            continue
-        ctx.case(('o-hist', hp, N, c0, tuple(ops)), nontrivial=layout_changes(hp, c0, ops) > 0,
-                 kind='oracle:history')
-        if got != want:
-            small = shrink_history(hp, N, c0, ops)
-            ctx.fail('history:differs-from-fresh',
-                     'PenalizedSystem after a reconfiguration history differs from the system built directly '
-                     f'with the final settings (N={small[1]}, c0={small[2]}, ops={small[3]})',
+        ctx.case(('o-hist', hp, N, c0, repr(ops)), nontrivial=layout_changes(hp, c0, ops) + use_then_reset(ops) > 0,
+                 kind='oracle:history' + (':with-uses' if any(is_use(o) for o in ops) else ''))
+        err = history_error(hp, N, c0, ops)
+        if err:
+            key = err_key(err)
+            small = shrink_history(hp, N, c0, ops, key)
+            err = history_error(*small) or err
+            ctx.fail(key, 'PenalizedSystem after a history of reconfigurations and uses: ' + err +
+                     f' (has_pentapy={small[0]}, N={small[1]}, c0={small[2]}, ops={small[3]})',
                      {'kind': 'history', 'hp': small[0], 'N': small[1], 'c0': small[2], 'ops': small[3]})
             found += 1
+    # 4. PSpline (the P-spline subclass re-uses its penalty through reset_penalty_diagonals;
+    #    padding = spline_degree - diff_order is <= 0 for diff_order >= spline_degree)
+    found += pspline_histories(ctx, 25 * budget)
     return found
 
 
-def history_bad(hp, N, c0, ops):
-    final = [o for o in ops if o != 'rev']
-    last = final[-1] if final else c0
-    idx = max(i for i, o in enumerate(ops) if o != 'rev') if final else -1
-    nrev = sum(1 for o in ops[idx + 1:] if o == 'rev')
+def history_error(hp, N, c0, ops):
+    """None when the property holds on this history, else a description.  The reference is the system
+    built directly with the final settings, followed by the operations after the last reset."""
+    last, tail = split_history(c0, ops)
+    watch = []
     try:
-        return impl_history(hp, N, c0, ops) != apply_revs_fresh(hp, N, last, nrev)
-    except Exception:  # noqa
-        return True
+        got = impl_history(hp, N, c0, ops, watch=watch)
+        want = impl_history(hp, N, last, tail)
+    except Exception as exc:  # noqa
+        return f'raised {type(exc).__name__}: {exc}'
+    if watch:
+        return f'a use changed original_diagonals (operation #{watch[0][1]}: {ops[watch[0][1]][0]})'
+    if got != want:
+        names = ('diff_order', 'lower', 'reversed', 'using_pentapy', 'num_bands', 'main_diagonal_index',
+                 'original_diagonals', 'penalty', 'main_diagonal', 'shares_memory')
+        diff = [n for n, x, y in zip(names, got, want) if x != y]
+        return 'differs from the system built directly with the final settings in ' + ', '.join(diff)
+    return None
 
 
-def shrink_history(hp, N, c0, ops):
+def err_key(err):
+    if err is None:
+        return None
+    if err.startswith('differs'):
+        return 'history:differs-from-fresh'
+    if err.startswith('raised'):
+        return 'history:raises'
+    return 'history:use-corrupts-stored-diagonals'
+
+
+def history_bad(hp, N, c0, ops):
+    return history_error(hp, N, c0, ops) is not None
+
+
+def shrink_history(hp, N, c0, ops, key=None):
+    """Drops operations while the SAME kind of failure remains (dropping an operation can make a later
+    use ill-shaped, which would be a different, artificial failure)."""
     ops = list(ops)
+    if key is None:
+        key = err_key(history_error(hp, N, c0, ops))
     changed = True
     while changed:
         changed = False
         for i in range(len(ops)):
             trial = ops[:i] + ops[i + 1:]
-            if trial and history_bad(hp, N, c0, trial):
+            if trial and err_key(history_error(hp, N, c0, trial)) == key:
                 ops = trial
                 changed = True
                 break
     return hp, N, c0, ops
+
+
+def pspline_observe(ps):
+    return (int(ps.diff_order), bool(ps.lower), bool(ps.reversed), int(ps.num_bands), int(ps.main_diagonal_index),
+            as_int_rows(ps.original_diagonals), as_int_rows(ps.penalty), as_int_rows(ps.main_diagonal)[0],
+            bool(np.shares_memory(ps.penalty, ps.original_diagonals)))
+
+
+def pspline_run(n_x, num_knots, degree, c0, ops, seed):
+    """ops: ('reset', lam, d, allow_lower, reverse) | ('diag', w) | ('pen', rows) | ('solve',)."""
+    from pybaselines import _spline_utils as su
+    r = np.random.default_rng(seed)
+    x = np.linspace(0.0, 1.0, n_x)
+    y = r.normal(size=n_x)
+    w = r.uniform(0.1, 1.0, n_x)
+    basis = su.SplineBasis(x, num_knots, degree)
+    ps = su.PSpline(basis, lam=c0[0], diff_order=c0[1], allow_lower=c0[2], reverse_diags=c0[3])
+    for op in ops:
+        if op[0] == 'reset':
+            ps.reset_penalty_diagonals(lam=op[1], diff_order=op[2], allow_lower=op[3], reverse_diags=op[4])
+        elif op[0] == 'diag':
+            ps.add_diagonal(np.array(op[1], dtype=float))
+        elif op[0] == 'pen':
+            try:
+                ps.add_penalty(np.array(op[1], dtype=float))
+            except ValueError:
+                pass
+        else:
+            # penalty used as the left-hand side of an overwriting solve (LAPACK stores the factorisation
+            # in it); after that the array is scratch until the next reset, so later solves may fail
+            try:
+                ps.solve_pspline(y, w)
+                ps.solve(ps.add_diagonal(1.0), np.ones(ps.basis._num_bases), overwrite_ab=True)
+            except np.linalg.LinAlgError:
+                pass
+    return pspline_observe(ps)
+
+
+def pspline_histories(ctx, n):
+    rng = ctx.rng
+    found = 0
+    for _ in range(n):
+        degree = rng.choice([1, 2, 3])
+        num_knots = rng.choice([4, 6, 9])
+        nb = num_knots + degree - 1
+        n_x = rng.choice([20, 33])
+
+        def cfg():
+            return (rng.choice([1, 1, 2, 5]), rng.randint(1, min(4, nb - 1)), rng.random() < 0.5, rng.random() < 0.3)
+        c0 = cfg()
+        ops = []
+        for _k in range(rng.randint(2, 6)):
+            u = rng.random()
+            if u < 0.3:
+                ops.append(('diag', [rng.randint(1, 9) for _ in range(nb)]))
+            elif u < 0.45:
+                ops.append(('pen', [[rng.randint(0, 3) for _ in range(nb)]]))
+            elif u < 0.6:
+                ops.append(('solve',))
+            else:
+                ops.append(('reset',) + cfg())
+        ops.append(('reset',) + cfg())
+        last = ops[-1][1:]
+        seed = rng.randint(0, 10 ** 6)
+        case = {'kind': 'pspline-history', 'n_x': n_x, 'num_knots': num_knots, 'degree': degree, 'c0': c0,
+                'ops': ops, 'seed': seed}
+        ctx.case(('o-pspline', n_x, num_knots, degree, c0, repr(ops)), nontrivial=any(o[0] != 'reset' for o in ops),
+                 kind='oracle:pspline-history')
+        try:
+            got = pspline_run(n_x, num_knots, degree, c0, ops, seed)
+            want = pspline_run(n_x, num_knots, degree, last, [], seed)
+        except Exception as exc:  # noqa
+            ctx.fail('pspline-history:raises', f'PSpline history raised {type(exc).__name__}: {exc}', case)
+            found += 1
+            continue
+        if got != want:
+            ctx.fail('pspline-history:differs-from-fresh',
+                     'PSpline after add_diagonal/add_penalty/solve and reset_penalty_diagonals differs from the PSpline '
+                     f'built directly with the final settings (degree={degree}, num_knots={num_knots}, c0={c0}, ops={ops})', case)
+            found += 1
+    return found
 
 
 # ---------------------------------------------------------------- correspondence
@@ -339,84 +557,100 @@ Eval vm_compute in (bad ok cases).
         R = rng.randint(1, 5)
         C = rng.randint(1, 9)
         a = [[rng.randint(-9, 9) for _ in range(C)] for _ in range(R)]
-        kind = rng.choice(['l2f', 'shift', 'pad'])
+        kind = rng.choice(['l2f', 'shift', 'pad', 'add'])
         arr = np.array(a, dtype=float)
         if kind == 'l2f':
             got = as_int_rows(bu._lower_to_full(arr.copy()))
-            lits.append(f'(0, {zlist2(a)}, 0, 0, {zlist2(got)})')
+            lits.append(f'(0, {zlist2(a)}, [], 0, 0, Some {zlist2(got)})')
             key = ('l2f', R, C)
         elif kind == 'shift':
             up = rng.randint(0, R)
             lo = rng.randint(0, R - up)
             got = as_int_rows(bu._shift_rows(arr.copy(), up, lo))
-            lits.append(f'(1, {zlist2(a)}, {up}, {lo}, {zlist2(got)})')
+            lits.append(f'(1, {zlist2(a)}, [], {up}, {lo}, Some {zlist2(got)})')
             key = ('shift', R, C, up, lo)
-        else:
+        elif kind == 'pad':
             pad = rng.randint(-1, 3)
             lower = rng.random() < 0.5
             got = as_int_rows(bu._pad_diagonals(arr.copy(), pad, lower))
-            lits.append(f'(2, {zlist2(a)}, {zl(pad)}, {1 if lower else 0}, {zlist2(got)})')
+            lits.append(f'(2, {zlist2(a)}, [], {zl(pad)}, {1 if lower else 0}, Some {zlist2(got)})')
             key = ('pad', R, C, pad, lower)
+        else:
+            R2 = max(1, R + rng.choice([-3, -2, -1, 0, 0, 1, 2, 4]))
+            C2 = C if rng.random() < 0.9 else C + 1
+            b2 = rand_rows(rng, R2, C2)
+            lower = rng.random() < 0.5
+            try:
+                got = 'Some ' + zlist2(as_int_rows(bu._add_diagonals(arr.copy(), np.array(b2, dtype=float), lower)))
+            except ValueError:
+                got = 'None'
+            lits.append(f'(3, {zlist2(a)}, {zlist2(b2)}, 0, {1 if lower else 0}, {got})')
+            key = ('add', R, C, R2, C2, lower, tuple(map(tuple, b2)))
         ctx.case(key + (tuple(map(tuple, a)),), nontrivial=True, kind=f'helper:{kind}')
     text = HEADER + f"""
-Definition of_rows (l : list (list Z)) : arr :=
-  mkarr (Z.of_nat (length l)) (Z.of_nat (length (hd [] l))) (fun r c => nth (Z.to_nat c) (nth (Z.to_nat r) l []) 0).
-Definition cases : list (Z * list (list Z) * Z * Z * list (list Z)) := [
+Definition cases : list (Z * list (list Z) * list (list Z) * Z * Z * option (list (list Z))) := [
 {chr(10).join('  ' + l + (';' if i + 1 < len(lits) else '') for i, l in enumerate(lits))}
 ].
-Definition ok (c : Z * list (list Z) * Z * Z * list (list Z)) : bool :=
-  let '(kind, a, p, q, exp) := c in
-  let res := if kind =? 0 then lower_to_full (of_rows a)
-             else if kind =? 1 then shift_rows (of_rows a) p q
-             else pad_diagonals (of_rows a) p (q =? 1) in
-  zll_eqb (tab res) exp.
+Definition ok (c : Z * list (list Z) * list (list Z) * Z * Z * option (list (list Z))) : bool :=
+  let '(kind, a, b, p, q, exp) := c in
+  let res := if kind =? 0 then Some (lower_to_full (of_rows a))
+             else if kind =? 1 then Some (shift_rows (of_rows a) p q)
+             else if kind =? 2 then Some (pad_diagonals (of_rows a) p (q =? 1))
+             else add_diagonals (of_rows a) (of_rows b) (q =? 1) in
+  match res, exp with
+  | Some r, Some e => zll_eqb (tab r) e
+  | None, None => true
+  | _, _ => false
+  end.
 Eval vm_compute in (bad ok cases).
 """
     vals = ctx.coq_eval('helpers', text)
-    ctx.obligations.append('correspondence:_lower_to_full/_shift_rows/_pad_diagonals')
+    ctx.obligations.append('correspondence:_lower_to_full/_shift_rows/_pad_diagonals/_add_diagonals')
     if vals is not None:
         if vals and (vals[0].startswith('(0%nat, [])') or vals[0].startswith('(0, [])')):
-            ctx.discharged.append('correspondence:_lower_to_full/_shift_rows/_pad_diagonals')
+            ctx.discharged.append('correspondence:_lower_to_full/_shift_rows/_pad_diagonals/_add_diagonals')
         else:
             ctx.broke('correspondence:helpers', f'model and implementation disagree on band helpers: {vals}')
 
-    # C. reconfiguration histories, compared field by field
-    nH = ctx.n(250, 3000)
+    # C. histories of reconfigurations and uses, compared field by field (including main_diagonal and
+    #    whether penalty shares memory with original_diagonals)
+    nH = ctx.n(320, 3000)
     lits = []
-    nontriv = 0
     for k in range(nH):
-        hp, N, c0, ops = gen_history(rng, 24)
+        hp, N, c0, ops = gen_history(rng, 24, uses=(k % 4 != 0))
         try:
             got = impl_history(hp, N, c0, ops)
         except Exception as exc:  # noqa
-            ctx.fail('history:raises', f'reconfiguration history raised {type(exc).__name__}: {exc}',
+            ctx.fail('history:raises', f'history of reconfigurations and uses raised {type(exc).__name__}: {exc}',
                      {'kind': 'history', 'hp': hp, 'N': N, 'c0': c0, 'ops': ops})
             continue
-        lc = layout_changes(hp, c0, ops)
-        nontriv += lc > 0
-        ctx.case(('hist', hp, N, c0, tuple(ops)), nontrivial=lc > 0, kind=f'history:len={len(ops)}')
-        ops_l = '[' + '; '.join('Reverse' if o == 'rev' else f'Reset {coq_cfg(o)}' for o in ops) + ']'
+        lc = layout_changes(hp, c0, ops) + use_then_reset(ops)
+        nuse = sum(1 for o in ops if is_use(o))
+        ctx.case(('hist', hp, N, c0, repr(ops)), nontrivial=lc > 0,
+                 kind=f'history:len={len(ops)}' + (':uses' if nuse else ''))
+        ops_l = '[' + '; '.join(coq_op(o) for o in ops) + ']'
         lits.append(f'({coqbool(hp)}, {N}%nat, {coq_cfg(c0)}, {ops_l}, {coq_obs(got)})')
-        if k < 2:
+        if k in (1, 2):
             ctx.sample({'kind': 'history', 'has_pentapy': hp, 'N': N, 'c0': c0, 'ops': ops})
     ctx.traces += len(lits)
     bad_any = False
-    per = 125
+    per = 110
     for k in range(0, len(lits), per):
         sh = lits[k:k + per]
         text = HEADER + f"""
 Definition cases := [
 {chr(10).join('  ' + l + (';' if i + 1 < len(sh) else '') for i, l in enumerate(sh))}
 ].
-Definition obs_eqb (a b : Z * bool * bool * bool * Z * Z * list (list Z) * list (list Z)) : bool :=
-  let '(d1, l1, r1, p1, n1, m1, o1, q1) := a in
-  let '(d2, l2, r2, p2, n2, m2, o2, q2) := b in
+Definition obs_t : Type := Z * bool * bool * bool * Z * Z * list (list Z) * list (list Z) * list Z * bool.
+Definition obs_eqb (a b : obs_t) : bool :=
+  let '(d1, l1, r1, p1, n1, m1, o1, q1, g1, a1) := a in
+  let '(d2, l2, r2, p2, n2, m2, o2, q2, g2, a2) := b in
   (d1 =? d2) && Bool.eqb l1 l2 && Bool.eqb r1 r2 && Bool.eqb p1 p2 && (n1 =? n2) && (m1 =? m2)
-  && zll_eqb o1 o2 && zll_eqb q1 q2.
-Definition ok (c : bool * nat * cfg * list op * (Z * bool * bool * bool * Z * Z * list (list Z) * list (list Z))) : bool :=
+  && zll_eqb o1 o2 && zll_eqb q1 q2 && zl_eqb g1 g2 && Bool.eqb a1 a2.
+Definition ok (c : bool * nat * cfg * list uop * obs_t) : bool :=
   let '(hp, N, c0, ops, exp) := c in
-  match reset hp N None c0 with
-  | Some s0 => obs_eqb (observe (run hp N s0 ops)) exp
+  match ureset hp N None c0 with
+  | Some u0 => obs_eqb (uobserve (urun hp N u0 ops)) exp
   | None => false
   end.
 Eval vm_compute in (bad ok cases).
@@ -427,21 +661,27 @@ Eval vm_compute in (bad ok cases).
         elif not vals or not (vals[0].startswith('(0%nat, [])') or vals[0].startswith('(0, [])')):
             bad_any = True
             ctx.broke(f'correspondence:history-shard{k // per}',
-                      f'model state and PenalizedSystem state disagree after a history: {vals}')
-    ctx.obligations.append('correspondence:PenalizedSystem-histories')
+                      'model state and PenalizedSystem state (settings, original_diagonals, penalty, main_diagonal, '
+                      f'shares_memory) disagree after a history of reconfigurations and uses: {vals}')
+    ctx.obligations.append('correspondence:PenalizedSystem-histories-with-uses')
     if not bad_any:
-        ctx.discharged.append('correspondence:PenalizedSystem-histories')
+        ctx.discharged.append('correspondence:PenalizedSystem-histories-with-uses')
 
 
 def run(ctx):
-    ctx.rule = ('cases: (N,d,lower,padding) grid for diff_penalty_diagonals, random integer arrays for the band helpers, '
-                'random reconfiguration histories (len 1-10) over (lam,diff_order,allow_lower,reverse_diags,allow_pentapy,padding) '
-                'and reverse_penalty with pentapy present/absent; distinct = distinct canonical case; non-trivial = d>0 and N>d '
-                'for band cases, at least one (lower,reversed) layout change for histories')
+    ctx.rule = ('cases: (N,d,lower,padding) grid for diff_penalty_diagonals, random integer arrays for the band helpers '
+                '(_lower_to_full/_shift_rows/_pad_diagonals/_add_diagonals), random histories (len 1-10) of reconfigurations over '
+                '(lam,diff_order,allow_lower,reverse_diags,allow_pentapy,padding; lam = 1 and padding <= 0 over-sampled), '
+                'reverse_penalty and USES (add_diagonal, add_penalty, in-place overwrite, re-binding of penalty; integer arguments) '
+                'with pentapy present/absent; distinct = distinct canonical case; non-trivial = d>0 and N>d for band cases, '
+                'at least one (lower,reversed) layout change or one reset after a use for histories')
     ctx.trusted += [
         'scipy.sparse D.T @ D + _sparse_to_banded (general path, d>3 or N<2d+1) is modelled as the specification; '
         'dense-checked against np.diff(np.eye(N),d) by the oracle for every generated size',
         'lam restricted to positive integers in histories (exact float arithmetic); failing resets (lam<=0) not modelled',
+        'buffer identities in the model (which NumPy operation allocates, which returns a view or its argument) are a hand '
+        'transcription; they are tied to the code by comparing np.shares_memory(penalty, original_diagonals) and the contents '
+        'after every generated history; SetPen/Clobber are exercised with arrays of the current penalty shape only',
     ]
     ctx.gate()
     ctx.translate(['GenBands'])
@@ -451,7 +691,16 @@ def run(ctx):
     if ctx.tier == 'thorough':
         budget = max(budget, 3)
     found = search(ctx, budget)
-    ctx.note(f'direct oracle budget x{budget}: {found} failing inputs; general-path sizes in Coq limited to N<{ctx.n(16, 40)}')
+    ctx.note(f'direct oracle budget x{budget}: {found} failing inputs; general-path sizes in Coq limited to N<{ctx.n(16, 40)}; '
+             'PenalizedSystem2D / WhittakerSystem2D (sparse 2-D penalties) are outside the banded model')
+
+
+def _decode_op(o):
+    if o == 'rev':
+        return 'rev'
+    if isinstance(o[0], str):
+        return (o[0], o[1])
+    return tuple(o)
 
 
 def replay(rep):
@@ -464,9 +713,15 @@ def replay(rep):
         return 1 if err else 0
     if kind == 'history':
         c0 = tuple(case['c0'])
-        ops = ['rev' if o == 'rev' else tuple(o) for o in case['ops']]
-        bad = history_bad(case['hp'], case['N'], c0, ops)
-        print('replay history:', 'differs from fresh system' if bad else 'property holds on this input')
-        return 1 if bad else 0
+        ops = [_decode_op(o) for o in case['ops']]
+        err = history_error(case['hp'], case['N'], c0, ops)
+        print('replay history:', err or 'property holds on this input')
+        return 1 if err else 0
+    if kind == 'pspline-history':
+        ops = [tuple(o) for o in case['ops']]
+        got = pspline_run(case['n_x'], case['num_knots'], case['degree'], tuple(case['c0']), ops, case['seed'])
+        want = pspline_run(case['n_x'], case['num_knots'], case['degree'], tuple(ops[-1][1:]), [], case['seed'])
+        print('replay pspline history:', 'differs from fresh PSpline' if got != want else 'property holds on this input')
+        return 1 if got != want else 0
     print('replay: nothing concrete to replay; broken obligations were:', rep.get('broken_obligations'))
     return 1
